@@ -81,6 +81,21 @@ func checkAssocLog(c *vk.Ctx, scen string, s *NatSock, sends []c14Send, natTimeo
 				c.Violation("C14/deadline-moved-earlier", wit(map[string]any{"event": i, "from": cur.Sub(e.T).String(), "to": e.DL.Sub(e.T).String()}))
 				return false
 			}
+			// a deadline that moves later belongs to a client datagram being forwarded (the write to the
+			// target follows it in the log); target traffic alone must not keep the association alive
+			clientDriven := false
+			for _, n := range evs[i+1:] {
+				if n.Kind == "writeTo" {
+					clientDriven = true
+				}
+				if n.Kind == "writeTo" || n.Kind == "setReadDeadline" {
+					break
+				}
+			}
+			if !clientDriven && !cur.IsZero() && e.DL.After(cur.Add(5*time.Millisecond)) {
+				c.Violation("C14/deadline-extended-without-client-traffic", wit(map[string]any{"event": i, "deadline_moved_later_by": e.DL.Sub(cur).String(), "client_datagrams_forwarded_so_far": writes}))
+				return false
+			}
 			cur = e.DL
 		case "writeTo":
 			if writes < len(sends) {
@@ -183,7 +198,7 @@ func c14Expiry(c *vk.Ctx, r *rand.Rand) bool {
 				return
 			}
 			defer cl.Close()
-			scen := pick(cr, []string{"non-dns-burst-then-idle", "single-non-dns", "dns-then-non-dns", "fast-close", "no-fast-close/reply-from-other-port-first", "no-fast-close/two-queries", "no-fast-close/non-dns-first", "dns-reply-races-second-datagram", "first-write-fails", "reply-write-to-client-fails"})
+			scen := pick(cr, []string{"non-dns-burst-then-idle", "single-non-dns", "dns-then-non-dns", "fast-close", "no-fast-close/reply-from-other-port-first", "no-fast-close/two-queries", "no-fast-close/non-dns-first", "dns-reply-races-second-datagram", "first-write-fails", "reply-write-to-client-fails", "chatty-target-silent-client", "datagram-in-the-reaping-window"})
 			c.Progress("C14 expiry client=%d scenario=%s timeout=%s", ci, scen, natTimeout)
 			var sends []c14Send
 			var sock *NatSock
@@ -219,6 +234,75 @@ func c14Expiry(c *vk.Ctx, r *rand.Rand) bool {
 				}
 			case "single-non-dns":
 				ok = send(w.other, 0)
+			case "datagram-in-the-reaping-window":
+				// The deadline has passed, the reaper is slow (H2 holds the timeout back 250 ms), and the
+				// client sends again in between. Whatever association carries that datagram: every socket
+				// created for this client ends up closed once, every association removed once, and the
+				// client is served afterwards.
+				ok = send(w.other, 0)
+				if !ok || sock == nil {
+					break
+				}
+				sock.SetDelayTimeout(250 * time.Millisecond)
+				time.Sleep(time.Until(sends[0].T.Add(natTimeout + 60*time.Millisecond)))
+				socks := []*NatSock{sock}
+				_, s2, ok2 := w.sendAndWait(c, cr, cl, w.other, 0)
+				if !ok2 {
+					results <- false
+					return
+				}
+				if s2 != nil && s2 != sock {
+					socks = append(socks, s2)
+				}
+				time.Sleep(natTimeout + 400*time.Millisecond)
+				_, s3, ok3 := w.sendAndWait(c, cr, cl, w.other2, 0)
+				if !ok3 {
+					results <- false
+					return
+				}
+				if s3 != nil && s3 != sock && s3 != s2 {
+					socks = append(socks, s3)
+				}
+				c.Eval("expiry|" + scen)
+				deadline := time.Now().Add(natTimeout + udpB)
+				for _, sk := range socks {
+					for {
+						if _, n := sk.Closed(); n > 0 || time.Now().After(deadline) {
+							break
+						}
+						time.Sleep(2 * time.Millisecond)
+					}
+					if _, n := sk.Closed(); n != 1 {
+						c.Violation("C14/expired-association-not-reclaimed-exactly-once", map[string]any{"scenario": scen, "socket": sk.Local, "socket_closes": n, "sockets_created_for_this_client": len(socks), "history": "datagram, silence past the deadline, datagram while the expired association was not yet removed, silence, datagram"})
+						results <- false
+						return
+					}
+				}
+				for _, a := range w.rig.Rec.ByClient(cl.Addr.String()) {
+					for len(a.Snap().Removed) == 0 && time.Now().Before(deadline) {
+						time.Sleep(2 * time.Millisecond)
+					}
+					if n := len(a.Snap().Removed); n != 1 {
+						c.Violation("C14/removal-not-reported-exactly-once", map[string]any{"scenario": scen, "removals": n, "associations_of_this_client": len(w.rig.Rec.ByClient(cl.Addr.String()))})
+						results <- false
+						return
+					}
+				}
+				c.Count("reaping_window_scenarios", 1)
+				results <- true
+				return
+			case "chatty-target-silent-client":
+				// the client says one thing and goes silent; the target (and a third party) keep sending
+				// to the association's address for two timeouts. Only client datagrams keep an association.
+				ok = send(w.other, 0)
+				if ok && sock != nil {
+					ua, _ := net.ResolveUDPAddr("udp", "203.0.113.77:"+sock.Local[strings.LastIndex(sock.Local, ":")+1:])
+					for i := 0; i < 8; i++ {
+						pick(cr, []*udpTarget{w.other, w.other2}).Send(replyPayload(nextID(c.Batch), 1, 20+cr.Intn(200)), ua)
+						time.Sleep(natTimeout / 4)
+					}
+					c.Count("chatty_target_scenarios", 1)
+				}
 			case "dns-then-non-dns":
 				ok = send(w.dns53, 0) && send(w.other, 0)
 			case "fast-close":
@@ -616,7 +700,7 @@ func init() {
 		Parallel:    func(t string) int { return 4 },
 		Timeout:     func(t string) time.Duration { return 25 * time.Minute },
 		Run: func(c *vk.Ctx) {
-			for _, s := range []string{"deadlines_checked", "expired_reclaimed_exactly_once", "fast_close_reclaimed", "dns_associations_kept", "shutdown_with_live_associations", "long_timeout_sequences", "leak_audits_passed", "process_configured_timeout_honoured_services", "process_configured_timeout_honoured_legacy-keys"} {
+			for _, s := range []string{"deadlines_checked", "expired_reclaimed_exactly_once", "fast_close_reclaimed", "dns_associations_kept", "shutdown_with_live_associations", "long_timeout_sequences", "leak_audits_passed", "process_configured_timeout_honoured_services", "process_configured_timeout_honoured_legacy-keys", "chatty_target_scenarios", "reaping_window_scenarios"} {
 				c.Require(s)
 			}
 			c14Run(c)
